@@ -97,9 +97,21 @@ def check(run, prog, tier):
             good = True
             why.append("`%s`: a single byte of the non-empty ring" % show(n))
         else:
-            good = True
-            unrec = True
-            why.append("chunk length %s is not one of the two field-level forms (not decided)" % show(n))
+            # a length computed from the ring cursors (or local copies of them) in a form this rule does not read is not
+            # decided; a length taken from something else entirely, without the `length > E` guard that makes it a mere
+            # shortening, replaces the contiguous bound
+            mirrors = {strip(n2["L"]).get("id") for b2, i2, n2 in fm.nodes() if n2.get("k") == "Asg" and n2.get("op") == "=" and strip(n2["L"]).get("k") == "Ref"
+                       and any(fld(x, "message_producer") or fld(x, "message_consumer") for x in walk(n2["R"]))}
+            mirrors |= {v.get("id") for b2, i2, n2 in fm.nodes() if n2.get("k") == "Decl" for v in n2.get("vars", ()) if isinstance(v.get("init"), dict)
+                        and any(fld(x, "message_producer") or fld(x, "message_consumer") for x in walk(v["init"]))}
+            about_ring = any(fld(x, "message_producer") or fld(x, "message_consumer") or (x.get("k") == "Ref" and x.get("id") in mirrors and x.get("id") is not None) or (x.get("k") == "Ref" and x.get("id") == lvid) for x in walk(r))
+            if about_ring:
+                good = True
+                unrec = True
+                why.append("chunk length %s is not one of the two field-level forms (not decided)" % show(n))
+            else:
+                good = False
+                why.append("`%s` (line %s) sets the chunk length from a quantity that is not the contiguous unsent part and is not guarded by `length > ...`: when the unsent output wraps, send() is handed bytes beyond the end of the ring and the start of the ring is skipped" % (show(n), n.get("l")))
         okl = okl and good
     run.ob("C14-b", "chunk-length", (None if unrec else True) if okl else False, "; ".join(why), fm.file, lens[0][2].get("l"), fm.name, what="flush_message sends a chunk that is not the contiguous unsent part of the ring: " + "; ".join(why))
     fm = fm_
